@@ -1182,6 +1182,47 @@ pub fn c08(ctx: &Ctx, rep: &mut Report) {
     }
     // real sinks at the CLI: > file, pipe, slowly drained pipe, each against -o file
     let dir = ctx.scratch("c08");
+    // outputs of every size around the usual buffers (empty program up to 70 000 bytes) to a device that takes
+    // nothing, by redirect and by -o, from `compile` and from `parse`: whatever is still buffered when the command
+    // ends must be flushed while a failure can still be reported
+    if ctx.shard == 3 % ctx.nshards {
+        let exe_path = std::env::current_exe().unwrap();
+        let exe = exe_path.to_str().unwrap();
+        for (n, body_len) in [0usize, 1, 500, 900, 1023, 1024, 1025, 4000, 8100, 8192, 8300, 70000].iter().enumerate() {
+            let src = if *body_len == 0 { String::new() } else { format!("print(\"{}\");\n", "b".repeat(*body_len)) };
+            let sf = dir.join(format!("full{}.fml", n));
+            let jf = dir.join(format!("full{}.json", n));
+            if std::fs::write(&sf, &src).is_err() {
+                continue;
+            }
+            let made = cli::run(cli::Spec::new(&["parse", sf.to_str().unwrap(), "--format", "json", "-o", jf.to_str().unwrap()]));
+            if !made.success() {
+                continue;
+            }
+            let replay = json!({"check":"C08","src": if src.len() < 20000 { src.clone() } else { String::new() }, "via":"cli"});
+            let cases: Vec<(&str, cli::CliRun)> = vec![
+                ("compile > /dev/full", cli::run(cli::Spec::new(&["-c", "exec \"$0\" compile \"$1\" > /dev/full", exe, jf.to_str().unwrap()]).exe(std::path::Path::new("/bin/bash")))),
+                ("compile -o /dev/full", cli::run(cli::Spec::new(&["compile", jf.to_str().unwrap(), "-o", "/dev/full"]))),
+                ("parse > /dev/full", cli::run(cli::Spec::new(&["-c", "exec \"$0\" parse \"$1\" --format json > /dev/full", exe, sf.to_str().unwrap()]).exe(std::path::Path::new("/bin/bash")))),
+                ("parse -o /dev/full", cli::run(cli::Spec::new(&["parse", sf.to_str().unwrap(), "--format", "json", "-o", "/dev/full"]))),
+            ];
+            for (how, r) in cases.iter() {
+                rep.evaluations += 1;
+                if r.timed_out || r.spawn_error.is_some() {
+                    rep.skip("cli-watchdog");
+                    continue;
+                }
+                rep.conclusive += 1;
+                rep.count("cli_runs", 1);
+                rep.bump("c08-real-sink", &format!("{} (fixed sizes)", how));
+                if r.success() {
+                    rep.violation("C08:cli:device-full", format!("`fml {}` of a program with a {}-byte string exits 0 although the device takes nothing", how, body_len), replay.clone());
+                }
+            }
+            let _ = std::fs::remove_file(&sf);
+            let _ = std::fs::remove_file(&jf);
+        }
+    }
     let m = ctx.share(400, 8_000);
     for i in 0..m {
         if ctx.out_of_time() && i > m / 4 {
